@@ -19,7 +19,7 @@ EXPLANATION = (
     "(5) emit visits every handler: the dispatch is a plain loop with no early exit or short-circuit, the result is accumulated and returned; (7) disconnect() identifies the handler by every field connect() stores except the key; (6) ALIAS: the handler list registered for (sender, signal) is only edited in place and never replaced - connect() holds an alias to it across the creation of the weak references, whose callbacks may disconnect at that very moment."
     ' Added after seed round 3: (8) _prepare_user_args returns tuples it built itself (a snapshot of the connect-time arguments).'
     " Round 4: (9) callbacks are compared by equality, never identity; (10) MetaSignals.__init__ extends only the class's own signal list (from the class dict) or a fresh one."
-    " Round-4 triage: (11) every loop over a handler list whose body compares (==) or calls iterates a snapshot - emit and disconnect; every dereferenced weak reference in the module is tested by identity with None (a live sender may be falsy)."
+    " Round-4 triage: (11) every loop over a handler list whose body compares (==) or calls iterates a snapshot - emit and disconnect; every dereferenced weak reference in the module is tested by identity with None (a live sender may be falsy). Round 5: (12) disconnect() by arguments ends its search at the first match."
 )
 NOT_DECIDED = "Call order and argument order for all histories (list semantics), garbage-collection timing, behaviour for handlers connected/disconnected mid-emit beyond 'handlers that stay connected are called once'."
 ASSUMPTIONS = []
@@ -378,6 +378,27 @@ def rule_meta_fresh(ctx: Ctx) -> RuleResult:
     return rr
 
 
+def rule_disconnect_one(ctx: Ctx) -> RuleResult:
+    """disconnect() by arguments undoes *one* connect(): a handler connected twice with the same arguments and
+    disconnected once stays connected once.  The loop over the handlers therefore ends at the first match - after
+    the matching entry was handed to disconnect_by_key() the loop head must not be reachable again."""
+    p = ctx.p
+    rr = RuleResult("PASS", "C14.12", "Signals.disconnect removes one matching connection: the search loop ends at the first match", floor=1)
+    fi = p.func(f"{SIG}.disconnect")
+    cfg = cfg_of(fi)
+    calls = nodes_where(cfg, lambda x: isinstance(x, ast.Call) and isinstance(x.func, ast.Attribute) and x.func.attr == "disconnect_by_key")
+    heads = [n for n in cfg.nodes if n.kind == "for"]
+    if not calls or not heads:
+        raise AnalysisError("Signals.disconnect: the search loop / the disconnect_by_key() call was not found")
+    for c in calls:
+        r = cfg.reachable([c], labels=("n", "T", "F"))
+        again = [h for h in heads if h in r]
+        rr.inst(norm(c.stmt, 50), True, {"removal": norm(c.stmt, 60), "loop_continues": bool(again)})
+        if again:
+            rr.add(finding("PASS", fi, c.stmt, f"after `{norm(c.stmt, 50)}` the search loop goes on: one disconnect_signal() removes every connection made with the same arguments, so a handler that was connected twice and disconnected once is no longer called although it is still connected once", construct="disconnect continues after the first match"))
+    return rr
+
+
 def rule_foreign_code(ctx: Ctx) -> RuleResult:
     """Two places where Signals runs code it does not control:
     (a) comparing stored handlers with == (disconnect) can call a callback's __eq__, and any allocation can start a
@@ -462,6 +483,7 @@ def run(ctx: Ctx):
         rule_list_identity(ctx),
         rule_disconnect_fields(ctx),
         rule_foreign_code(ctx),
+        rule_disconnect_one(ctx),
     ]
     return out
 
@@ -470,6 +492,8 @@ from ..mutants import Mut  # noqa: E402
 
 _F = "urwid/signals.py"
 MUTANTS = [
+    Mut("disconnect-removes-every-match", "urwid/signals.py", "Signals.disconnect", "                return self.disconnect_by_key(obj, name, h[0])", "                self.disconnect_by_key(obj, name, h[0])", "PASS|signals.Signals.disconnect"),
+    Mut("twin-disconnect-break-form", "urwid/signals.py", "Signals.disconnect", "                return self.disconnect_by_key(obj, name, h[0])", "                self.disconnect_by_key(obj, name, h[0])\n                break", twin=True),
     Mut("disconnect-iterates-live-list", "urwid/signals.py", "Signals.disconnect", "for h in list(handlers):", "for h in handlers:", "SNAP|signals.Signals.disconnect"),
     Mut("weakref-callback-truthiness", "urwid/signals.py", "Signals.connect", "            if o is not None:\n", "            if o:\n", "SNAP|signals.Signals.connect.<locals>.weakref_callback"),
     Mut("twin-disconnect-tuple-snapshot", "urwid/signals.py", "Signals.disconnect", "for h in list(handlers):", "for h in tuple(handlers):", twin=True),
